@@ -259,10 +259,11 @@ class PDFXRefFallback(PDFXRef):
                         objs.append(cast(int, obj))
                 except PSEOF:
                     pass
-                n = min(n, len(objs) // 2)
+                n = min(int_value(n), len(objs) // 2)
                 for index in range(n):
                     objid1 = objs[index * 2]
-                    self.offsets[objid1] = (objid, index, 0)
+                    if isinstance(objid1, int):
+                        self.offsets[objid1] = (objid, index, 0)
 
 
 class PDFXRefStream(PDFBaseXRef):
